@@ -33,3 +33,21 @@ pub fn install_quiet_panic_hook() {
 pub fn last_panic_location() -> String {
     LAST_PANIC_LOC.lock().map(|g| g.clone()).unwrap_or_default()
 }
+
+static CRASHPROBE: std::sync::atomic::AtomicBool = std::sync::atomic::AtomicBool::new(false);
+
+pub fn enable_crashprobe() {
+    CRASHPROBE.store(true, std::sync::atomic::Ordering::SeqCst);
+}
+
+/// In crash-probe mode: announce (flushed) which properties the code about to run concerns, so
+/// that a process abort can be attributed to the operation in progress.
+pub fn probe_mark(props: &[&str]) {
+    if CRASHPROBE.load(std::sync::atomic::Ordering::Relaxed) {
+        use std::io::Write;
+        let out = std::io::stdout();
+        let mut o = out.lock();
+        let _ = writeln!(o, "P {}", props.join(","));
+        let _ = o.flush();
+    }
+}
